@@ -152,9 +152,9 @@ impl Style {
     #[inline]
     pub fn render_reset(self) -> impl core::fmt::Display + Copy {
         if self != Self::new() {
-            RESET
+            crate::color::NullFormatter(RESET)
         } else {
-            ""
+            crate::color::NullFormatter("")
         }
     }
 
